@@ -118,6 +118,24 @@ func main() {
 	var batches []*Obligation
 	nfun := 0
 	for _, fc := range prog.Order {
+		// function literals with their own contract (also inside assumed functions)
+		for _, ord := range sortedKeys(fc.Lits) {
+			lc := fc.Lits[ord]
+			if len(lc.Props) == 0 {
+				lc.Props = fc.Props
+			}
+			if *prop != "all" && !hasProp(lc.Props, *prop) {
+				continue
+			}
+			if *only != "" && !strings.Contains(prog.funcDisplayName(fc), *only) {
+				continue
+			}
+			nfun++
+			r := VerifyLit(prog, ss, reg, fc, ord, lc)
+			results = append(results, r)
+			all = append(all, r.Obls...)
+			batches = append(batches, r.Batches...)
+		}
 		if fc.Assumed {
 			continue
 		}
@@ -134,14 +152,40 @@ func main() {
 		batches = append(batches, r.Batches...)
 	}
 	// lemma obligations for the folds
+	// fold lemmas are proved in the runs that use the fold
+	usedSyms := map[string]bool{}
+	for _, o := range all {
+		for s := range symbolsOf(o.Goal) {
+			usedSyms[s] = true
+		}
+		for _, pc := range o.PC {
+			if strings.Contains(pc, "F_") {
+				for s := range symbolsOf(pc) {
+					usedSyms[s] = true
+				}
+			}
+		}
+	}
+	for _, fc := range prog.Order {
+		// spec-level uses inside contracts of the selected functions are covered by the obligations above
+		_ = fc
+	}
 	lemmaSeen := map[string]bool{}
 	for _, f := range reg.order {
+		if len(f.Lemmas) > 0 && !usedSyms[f.SMT] && *prop != "all" {
+			continue
+		}
 		for _, l := range f.Lemmas {
 			if lemmaSeen[l.Name] {
 				continue
 			}
 			lemmaSeen[l.Name] = true
 			all = append(all, &Obligation{Name: l.Name, Kind: "lemma", Func: "prelude", Text: l.Name, Raw: l.Body})
+		}
+	}
+	for i, pn := range reg.pins {
+		if *prop == "all" || hasProp(pn.Props, *prop) {
+			all = append(all, &Obligation{Name: fmt.Sprintf("pin#%d", i+1), Kind: "pin", Func: "constants", Text: pn.Text, Pos: pn.Line, Raw: "(assert (not " + pn.Goal + "))\n"})
 		}
 	}
 	for _, l := range reg.lemmaVCs {
